@@ -674,6 +674,49 @@ def gen_C01(c, rng, tier):
                     s = spec_run(kind, fmt, dims=dims, raw=raws, chk=chk, f=f, ops=[['run', [n]], ['dump']])
                     c.add(t, 'run', s, classes=['lattice_' + kind], nontrivial=(kind == 'vegas'), lattice={'kind': kind, 'n': n})
 
+@prop('C04', 'the three MPI drivers on the thread shim for world sizes P in {1,2,3,4,5,7,8,16,33} (thorough: every P in 1..33), seeded permutations of the reduction '
+      'order, calls lists with entries < P, not divisible by P and 0, polynomial and table integrands, distributions, scripted and built-in callbacks (target precision, '
+      'four modes), started from fresh and from resumed checkpoints; every rank\'s callbacks, collectives (count, kind), evaluated points and final checkpoint are compared '
+      'with the executed model run with the same permutation; the serial run of the same specification is the search oracle (point multiset, counters, generators '
+      'exact; sums within the reassociation bound); non-trivial = P >= 2', COMMON_ASSUMPTIONS +
+      ['MPI_Allreduce(SUM) returns to every rank the same element-wise sum taken in some order (the shim uses the order given by the case); collectives match by call order',
+       'calls x random-number usage < 2^64'])
+def gen_C04(c, rng, tier):
+    worlds = [1, 2, 3, 4, 5, 7, 8, 16, 33] if tier == 'quick' else list(range(1, 34))
+    for t in TYPES:
+        fmt = FMTS[t]
+        for kind in KINDS:
+            for _ in range(scale(tier, 7, 40)):
+                P = rng.choice(worlds)
+                iters = rng.choice([1, 2, 3])
+                pool = [0, 1, 2, P - 1, P, P + 1, 2 * P + 1, 3 * P, 17, 40]
+                calls = [max(0, rng.choice(pool)) for _ in range(iters)]
+                if rng.random() < 0.5:
+                    script = [1] * iters
+                    if rng.random() < 0.5: script[rng.randrange(iters)] = 0
+                    cb = ['script', script]; cl = ['cb_script']
+                else:
+                    target = rng.choice([Fraction(0), Fraction(1, 10), Fraction(1, 2)])
+                    cb = ['builtin', rng.randrange(4), fmt.rtok(target)]; cl = ['cb_builtin_mode_%d' % cb[1]]
+                poly = rng.random() < 0.7
+                s0, cl2, info = rand_run(rng, fmt, kind, iters=iters, calls=[1], cb=cb, poly=poly, trace=1, grid_map=(True if poly else None),
+                                         value_classes=None if poly else ['small_int', 'frac', 'neg', 'zero', 'nan', 'big'])
+                perm = list(range(P)); rng.shuffle(perm)
+                ops = []
+                if rng.random() < 0.25:
+                    pre = [rng.choice([3, 6])]
+                    ops += [['run', pre], ['reload']]; cl.append('resumed_checkpoint')
+                s = [e for e in s0 if e[0] != 'ops'] + [['ops', ops + [['mpi', calls, P, perm], ['text']]]]
+                info = dict(info); info['calls'] = calls; info['world'] = P; info['poly'] = poly; info['pre'] = ops
+                cid = c.add(t, 'run', s, classes=cl + cl2 + ['world_%s' % ('1' if P == 1 else 'small' if P < 8 else 'large'),
+                                                         'calls_lt_world' if any(0 < x < P for x in calls) else 'calls_ge_world',
+                                                         'identity_order' if perm == sorted(perm) else 'permuted_order'],
+                            nontrivial=P >= 2, info=info, mpi=True)
+                # the serial twin (search oracle)
+                s2 = [e for e in s0 if e[0] != 'ops'] + [['ops', ops + [['run', calls], ['text'], ['dump']]]]
+                c.add(t, 'run', s2, classes=['serial_twin'], serial_of=cid, info=info, nontrivial=False)
+PROPS['C04']['mpi'] = True
+
 # ------------------------------------------------------------------------------------------------
 def extra_checks(pid, rng, tier, st, cov):
     f = getattr(oracles, 'extra_' + pid, None)
